@@ -127,7 +127,8 @@ func fxCheckMirror(c *Ctx, lag, lead *ssa.Function) {
 	lc, dc := helperCall(lag), helperCall(lead)
 	var H *ssa.Function
 	for f := range lc {
-		if dc[f] != nil && (H == nil || len(f.Blocks) > len(H.Blocks)) {
+		// the largest common callee; ties broken by name (lc is a map)
+		if dc[f] != nil && (H == nil || len(f.Blocks) > len(H.Blocks) || (len(f.Blocks) == len(H.Blocks) && c.P.Name(f) < c.P.Name(H))) {
 			H = f
 		}
 	}
